@@ -36,6 +36,16 @@ func TestVerifC01(t *testing.T) {
 	optSets := []Options{{}, {Optimize: true}, {Optimize: true, DefaultReduce: true}, {MinimizeDFA: true}, {MinimizeDFA: true, Optimize: true}}
 	for i := 0; i < n; i++ {
 		hg := hRandGrammar(r, 3, 3, 6, 3, hGenOpts{markers: i%3 == 0, noEoi: true, multiInput: true})
+		if i == 0 {
+			// directed: the conflict-free grammar on which the thorough tier first showed F17 through this
+			// check (A: B | a .m1 ; B: A .m1 A c ; inputs A and B(no-eoi)), so that both tiers report it
+			hg = &hGrammar{nt: 4, nn: 2, marks: []string{"m0", "m1"},
+				rules: []Rule{
+					{LHS: 4, RHS: []Sym{5}},
+					{LHS: 5, RHS: []Sym{4, Marker(1), 4, 3}},
+					{LHS: 4, RHS: []Sym{1, Marker(1)}}},
+				inputs: []Input{{Nonterminal: 4, Eoi: true}, {Nonterminal: 5, Eoi: false}}}
+		}
 		g := hg.build()
 		first, err, pmsg := hCompile(g, Options{})
 		if pmsg != "" {
@@ -833,7 +843,7 @@ func TestVerifC06(t *testing.T) {
 		return false
 	}
 	r := vNewRand(vSeed() + 17)
-	n := hCount(2500, 60000)
+	n := hCount(2500, 30000)
 	maxLen := hCount(5, 6)
 	for i := 0; i < n; i++ {
 		hg := hRandGrammar(r, 4, 3, 9, 3, hGenOpts{prec: i%3 == 0, noEoi: true, multiInput: true, markers: i%5 == 0})
@@ -1139,7 +1149,7 @@ func TestVerifC07(t *testing.T) {
 	kf := vNew("C07/lalr-k-follow-through-reduction", "same grammars; only rejected sentences of the class described by known finding F13", false, "compiler.buildLA", "trieBuilder.resolve")
 	kfSeen := map[int]bool{}
 	r := vNewRand(vSeed() + 19)
-	n := hCount(1500, 40000)
+	n := hCount(1500, 15000)
 	ks := []int{2, 3}
 	if vTier() == "thorough" {
 		ks = []int{2, 3, 4}
@@ -1237,6 +1247,40 @@ func TestVerifC07(t *testing.T) {
 			}
 			if !hg.useful() {
 				continue
+			}
+		}
+		if i%8 == 5 {
+			// One reduce/reduce choice (A -> e | B -> e, deliberately rules 0 and 1) whose lookahead
+			// automaton has several nodes: two groups of continuations with different first tokens, the
+			// first group needing one more token than the second. The nodes of all conflicts of a grammar
+			// share one minimization cache, and node ids start at 0 like rule numbers do (seeded change
+			// C07-r7m2 made "go to node n" and "reduce rule n" indistinguishable there).
+			nt := 9
+			hg = &hGrammar{nt: nt, nn: 3, inputs: []Input{{Nonterminal: Sym(nt), Eoi: true}}}
+			S, A, B := Sym(nt), Sym(nt+1), Sym(nt+2)
+			z := Sym(8) // padding: every sentence goes on for three more tokens after the ones that decide,
+			// so that no reduction falls into the lookahead window (which is what known finding F13 is about)
+			p := []int{0, 1, 2, 3, 4, 5}
+			for j := 5; j > 0; j-- {
+				q := r.Intn(j + 1)
+				p[j], p[q] = p[q], p[j]
+			}
+			tk := func(j int) Sym { return Sym(2 + p[j]) } // six distinct terminals 2..7; terminal 1 is e
+			f1, f2, g, h, x, y := tk(0), tk(1), tk(2), tk(3), tk(4), tk(5)
+			hg.rules = []Rule{
+				{LHS: A, RHS: []Sym{1}},
+				{LHS: B, RHS: []Sym{1}},
+				{LHS: S, RHS: []Sym{A, f1, g, x, z, z, z}},
+				{LHS: S, RHS: []Sym{B, f1, g, y, z, z, z}},
+				{LHS: S, RHS: []Sym{B, f1, h, z, z, z}},
+				{LHS: S, RHS: []Sym{A, f2, g, z, z, z}},
+				{LHS: S, RHS: []Sym{B, f2, h, z, z, z}},
+			}
+			if r.Intn(2) == 0 {
+				hg.rules[5], hg.rules[6] = Rule{LHS: S, RHS: []Sym{B, f2, g, z, z, z}}, Rule{LHS: S, RHS: []Sym{A, f2, h, z, z, z}}
+			}
+			if r.Intn(3) == 0 {
+				hg.rules = append(hg.rules, Rule{LHS: S, RHS: []Sym{A, x, y, z, z, z}})
 			}
 		}
 		if i%4 == 3 {
